@@ -28,3 +28,17 @@ func TestGrepModel(t *testing.T) {
 		}
 	}
 }
+
+func TestSplitLong(t *testing.T) {
+	for _, c := range []struct {
+		in   string
+		m    int
+		want string
+	}{
+		{"abcdef", 3, "abc\ndef\n"}, {"abcde", 3, "abc\nde"}, {"abc\n", 3, "abc\n\n"}, {"ab\ncd", 3, "ab\ncd"}, {"", 3, ""}, {"abcdefg\n", 2, "ab\ncd\nef\ng\n"}, {"abc", 0, "abc"},
+	} {
+		if got := string(SplitLong([]byte(c.in), c.m)); got != c.want {
+			t.Errorf("SplitLong(%q,%d)=%q want %q", c.in, c.m, got, c.want)
+		}
+	}
+}
